@@ -6,19 +6,19 @@ V = os.path.dirname(os.path.dirname(os.path.abspath(__file__)))
 CLAIMED = {
     # id: (technique, level text, level note, design ref)
     "C01": ("table extraction and agreement over MIR: accepted-shape sets per carrier (both directions), fixed widths (array sizes / const generics / evaluated constants), sentinel constants, vector-codec arms, CqlValue encode/decode arm consistency, null-padding guards",
-            "Static, the tables that encoder and decoder must share, compared in full: for each carrier the serializer's and the type-checker's accepted column types agree and equal the documented set; for each fixed-width native the bytes written, the length demanded on read, the CQL v4 width and the vector codec's element size agree, and the set of natives the vector codec packs without a per-element length equals the protocol's fixed-length set; -1/-2 sentinels and the invalid placeholder agree between CellWriter and read_value/read_bytes_opt; both sides of the vector codec branch on the same size function with consistent arms; each column shape that decodes to a CqlValue variant is accepted by the serializer and the typed decoder of that variant; short tuples/UDTs are null-padded by construction. Byte-exactness of individual values and equality after round trip are numerical and not decided.",
+            "Static, the tables that encoder and decoder must share, compared in full: for each carrier the serializer's and the type-checker's accepted column types agree and equal the documented set; for each fixed-width native the bytes written, the length demanded on read, the CQL v4 width and the vector codec's element size agree, and the set of natives the vector codec packs without a per-element length equals the protocol's fixed-length set; -1/-2 sentinels and the invalid placeholder agree between CellWriter and read_value/read_bytes_opt; both sides of the vector codec branch on the same size function with consistent arms; each column shape that decodes to a CqlValue variant is accepted by the serializer and the typed decoder of that variant; short tuples/UDTs are null-padded by construction; the dynamic UDT / tuple serializers write one cell per field of the TYPE (a missing value is a null cell, never a skipped cell). Byte-exactness of individual values and equality after round trip are numerical and not decided.",
             "Trusts rustc MIR; CQL v4 widths/sentinels and the documented type matrix transcribed by hand.",
             "DESIGN.md §3 C01"),
     "C02": ("who-may-call / who-writes census on the stream-id structures, def-use provenance of registered ids and delivered frames, dominance and cut rules on lookup/orphan/reader, guard-across-await check on pre-lowering coroutine MIR",
-            "Static, schedule-independent: a stream id is freed and leaves the orphanage only in ResponseHandlerMap::lookup (the response path); the id registered for a request is the one StreamIdSet::allocate returned; lookup tests the orphanage before touching handlers and forgets the request->stream mapping on delivery; orphan() is complete; the reader delivers the TaskResponse built from the frame it just read to the handler lookup returned and dies on an unsolicited id; no handler-map guard lives across an await; the orphan notifier is disabled only after the response is Ready. Interleavings as such and the bitmap arithmetic are not decided.",
+            "Static, schedule-independent: a stream id is freed and leaves the orphanage only in ResponseHandlerMap::lookup (the response path); the id registered for a request is the one StreamIdSet::allocate returned; lookup tests the orphanage before touching handlers and forgets the request->stream mapping on delivery; orphan() is complete; the reader delivers the TaskResponse built from the frame it just read to the handler lookup returned and dies on an unsolicited id; no handler-map guard lives across an await; the orphan notifier is disabled only after the response is Ready; the stream-id bitmap's new / allocate / free agree on the word width and cover exactly 32768 ids. Interleavings as such and the bitmap arithmetic are not decided.",
             "Trusts rustc MIR and the role-based anchors (three private types of connection.rs); renaming them trips the fail-closed anchor check by design.",
             "DESIGN.md §3 C02"),
     "C03": ("call-sequence extraction per loop with argument provenance (two sibling encoders), cast-chain check on the tail loops, evaluated-constant census, dataflow region in Token::new, def-use provenance of key order",
-            "Static, thin but pointed: both composite-key encoders feed (checked big-endian u16 length, bytes, one zero byte) per component in that order and the value only for single keys; every tail byte of the Murmur3 finaliser is sign-extended through i8; the six incompressible constants and the rotation counts equal MurmurHash3_x64_128; Token::new maps i64::MIN to i64::MAX and finish() returns through it; key components are placed by partition-key position and fetched by bind-marker index, and the response parser numbers the partition-key positions in wire order before anything is sorted. That the arithmetic equals the server's for all inputs and chunkings is numerical and not decided.",
+            "Static, thin but pointed: both composite-key encoders feed (checked big-endian u16 length, bytes, one zero byte) per component in that order and the value only for single keys; every tail byte of the Murmur3 finaliser is sign-extended through i8; the six incompressible constants and the rotation counts equal MurmurHash3_x64_128; Token::new maps i64::MIN to i64::MAX and finish() returns through it; key components are placed by partition-key position and fetched by bind-marker index, and the response parser numbers the partition-key positions in wire order before anything is sorted. The values hash_16_bytes leaves in h1 / h2, fmix's result and rotl64's result are compared as TERMS over the inputs (value numbering of the straight-line MIR, helpers and closures expanded) with the reference MurmurHash3_x64_128 expressions: any reordering, wrong constant or wrong operator in the block step or finaliser is reported. The tail handling, buffering across chunks and the composite-key framing beyond the clauses above stay structural; equality of outputs for all inputs is not established by evaluation.",
             "Trusts rustc MIR; reference constants transcribed by hand.",
             "DESIGN.md §3 C03"),
     "C05": ("CFG cut rules for the failover gates, dataflow regions on the statement type + call-graph reachability for randomness, def-use shape of the iterator composition, call-graph reachability of every selection predicate",
-            "Static, thin: every selection from the whole cluster in pick()/fallback() is reachable only through the true outcome of is_datacenter_failover_possible or `no preferred DC`; the LWT arms never reach shuffling/random choice and ask for the deterministic order; fallback() de-duplicates exactly once, as the last step, and returns that iterator; every predicate handed to a selector consults is_enabled / is_alive / pick_predicate; in pick() no liveness-restricted selection is attempted after one that accepts down nodes, and in fallback() no liveness-filtered group is chained after a group that may contain down nodes (live before down). Completeness and the order among live groups are properties of iterator contents and are not decided.",
+            "Static, thin: every selection from the whole cluster in pick()/fallback() is reachable only through the true outcome of is_datacenter_failover_possible or `no preferred DC`; the LWT arms never reach shuffling/random choice and ask for the deterministic order; fallback() de-duplicates exactly once, as the last step, and returns that iterator; every predicate handed to a selector in pick(), fallback() and the DefaultPolicy helpers they call consults is_enabled / is_alive / pick_predicate (or the predicate the helper was given); in pick() no liveness-restricted selection is attempted after one that accepts down nodes, and in fallback() no liveness-filtered group is chained after a group that may contain down nodes (live before down). Completeness and the order among live groups are properties of iterator contents and are not decided.",
             "Trusts rustc MIR and itertools::unique_by semantics.",
             "DESIGN.md §3 C05"),
     "C06": ("MIR abstract-state dataflow over the retry decision tables + CFG cut rules on the retry loop",
@@ -26,7 +26,7 @@ CLAIMED = {
             "Trusts rustc MIR construction; SAFE set transcribed from the property text; user-supplied policies out of scope.",
             "DESIGN.md §3 C06"),
     "C07": ("dataflow regions over PagingStateResponse variants, def-use provenance of the cursor, CFG cut rules on the producer loops of the pre-lowering coroutines, guard region on the consumer",
-            "Static, all page splits and consumer behaviours for the clauses that are code shape: MorePages/Continue is produced only on the HasMorePages arm and the cursor is assigned from that arm's state (never on NoMorePages); every attempt is given the current cursor and a new pager starts from PagingState::start(); both producer loops fetch the next page only after this iteration's page was sent with an awaited Ok and more pages were announced, and stop on a closed channel, on NoMorePages/Break and after an error was sent; the consumer replaces its page only when exhausted; every page goes through the common retry core with a fresh plan; no hand-written poll function of the row stream can return Pending after an inner poll returned Ready without waking the task or polling again (an empty page cannot strand the consumer). (The re-sent EXECUTE keeping its paging state is C14.R2.)",
+            "Static, all page splits and consumer behaviours for the clauses that are code shape: MorePages/Continue is produced only on the HasMorePages arm and the cursor is assigned from that arm's state (never on NoMorePages); every attempt is given the current cursor and a new pager starts from PagingState::start(); both producer loops fetch the next page only after this iteration's page was sent with an awaited Ok and more pages were announced, and stop on a closed channel, on NoMorePages/Break and after an error was sent; errors of a failed fetch are handed over with the awaited send (never try_send on the capacity-1 channel); the consumer replaces its page only when exhausted; every page goes through the common retry core with a fresh plan; no hand-written poll function of the row stream can return Pending after an inner poll returned Ready without waking the task or polling again (an empty page cannot strand the consumer). (The re-sent EXECUTE keeping its paging state is C14.R2.)",
             "Trusts rustc MIR and mpsc FIFO semantics.",
             "DESIGN.md §3 C07"),
     "C08": ("call-graph reachability from decode entry points + panic-site census with reviewed/discharged table, shape-set consistency of `unreachable!` arms, origin classification of allocation sizes, SCC recursion review",
@@ -42,11 +42,11 @@ CLAIMED = {
             "Trusts rustc MIR; anchors are roles (read_buf loop, try_join result, oneshot sends) and fail closed when rewritten.",
             "DESIGN.md §3 C10"),
     "C12": ("def-use provenance at every RoutingInfo aggregate (through closure captures), dataflow regions in replicas_for_token, who-may-call on shard_of / ShardInfo, provenance of the pool bucket index",
-            "Static, glue only: every RoutingInfo's token is None or computed on the same prepared statement whose table spec and LWT flag it carries; tablet replicas take precedence over strategy-based lookup; the shard of a replica is computed only by the paired node's own sharder; the pool files a connection under the shard the server reported for it and the plan's shard selects the connection; every EXECUTE response feeds the tablet map; every datacenter/rack criterion handed to replica selection in pick()/fallback() derives from the effective preference computed by routing_info() (policy-level, else inherited from the session). Correctness of the token, replica set, plan and shard arithmetic themselves is the business of C03/C04/C05/C11.",
+            "Static, glue only: every RoutingInfo's token is None or computed on the same prepared statement whose table spec and LWT flag it carries; tablet replicas take precedence over strategy-based lookup; the shard of a replica is computed only by the paired node's own sharder; the pool files a connection under the shard the server reported for it and the plan's shard selects the connection; every EXECUTE response feeds the tablet map; every datacenter/rack criterion handed to replica selection in pick()/fallback() derives from the effective preference computed by routing_info() (policy-level, else inherited from the session); the pool keeps its sharder only where the reported one equals it as a whole (shard count and msb_ignore). Correctness of the token, replica set, plan and shard arithmetic themselves is the business of C03/C04/C05/C11.",
             "Trusts rustc MIR; composition only.",
             "DESIGN.md §3 C12"),
     "C13": ("dataflow guards on the speculative loop of the pre-lowering coroutine (start sites vs. counter, exits vs. can_be_ignored / emptiness), who-may-call for the gate",
-            "Static, all schedules for the clauses that are code shape: execute() is entered only inside `if self.is_idempotent`; one original start outside the loop; every speculative start lies in the retries_remaining > 0 region and cannot recur without the decrement, the counter is otherwise only zeroed (=> at most 1 + max starts); execute returns either a result for which can_be_ignored was false or only where async_tasks.is_empty() and retries_remaining == 0. Liveness of the select loop is not decided.",
+            "Static, all schedules for the clauses that are code shape: execute() is entered only inside `if self.is_idempotent`; one original start outside the loop; every speculative start lies in the retries_remaining > 0 region and cannot recur without the decrement, the counter is otherwise only zeroed (=> at most 1 + max starts); execute returns either a result for which can_be_ignored was false or only where async_tasks.is_empty() and retries_remaining == 0, returning the remembered last error; a speculative fiber never manufactures EmptyPlan (an exhausted plan is reported as None). Liveness of the select loop is not decided.",
             "Trusts rustc MIR and the futures::select!/FuturesUnordered semantics.",
             "DESIGN.md §3 C13"),
     "C14": ("dataflow regions (id comparison, Unprepared arm, `?` Continue edges), def-use provenance of the re-sent frame's fields and of the metadata snapshot, who-may-call on the metadata cache",
@@ -58,7 +58,7 @@ CLAIMED = {
             "Trusts rustc MIR; the rule compares siblings inside the crate rather than a frozen table.",
             "DESIGN.md §3 C15"),
     "C16": ("MIR analysis of macro-GENERATED code: a fixed family of derived structs is compiled under the fact driver; literal-arm to field/type tables, dataflow on the visited-flag accounting, positional tables of the ordered flavor",
-            "Static, wiring of the generated code only: for 15 structs covering flavor x rename x skip x flatten (two levels) x default_when_null x allow_missing x forbid_excess x skip_name_checks, every by-name arm selected by the literal L (de)serializes / type-checks exactly the field whose declared CQL name is L with its declared type, and the value decoded under L lands in that field; by-name row serializers report Done only where remaining_count == 0 and decrement it once per field under the visited flag; the ordered flavor serializes field i under expected name i with ENFORCE_NAME matching skip_name_checks, and the ordered UDT deserializer consumes a CQL field's value (deserialize it, or replace it by Default because it is null) only where the name comparison in force is the Rust field's own name. Behaviour under all permutations / missing / extra patterns needs execution and is not decided.",
+            "Static, wiring of the generated code only: for 16 structs covering flavor x rename x skip x flatten (two levels) x default_when_null x allow_missing x forbid_excess x skip_name_checks, every by-name arm selected by the literal L (de)serializes / type-checks exactly the field whose declared CQL name is L with its declared type, and the value decoded under L lands in that field; by-name row serializers report Done only where remaining_count == 0 and decrement it once per field under the visited flag; the ordered flavor serializes field i under expected name i with ENFORCE_NAME matching skip_name_checks, and the by-name UDT serializer refuses a UDT lacking a required field for exactly the required fields (a genuine defect found by this rule was repaired, see known_findings.json) and flushes the nulls owed for skipped UDT fields exactly once; the ordered UDT deserializer consumes a CQL field's value (deserialize it, or replace it by Default because it is null) only where the name comparison in force is the Rust field's own name. Behaviour under all permutations / missing / extra patterns needs execution and is not decided.",
             "Trusts rustc MIR; the family is a fixed sample; the sidecar table mirrors its declarations.",
             "DESIGN.md §3 C16"),
     "C17": ("MIR abstract-state dataflow over ColumnType/NativeType/CollectionType discriminants: may-return-Ok shape sets of every serialize/type_check impl vs. a reference matrix; dominance/cut rules on add_value and TypedRowIterator::new",
@@ -66,7 +66,7 @@ CLAIMED = {
             "Trusts rustc MIR; reference matrix transcribed from docs/source/data-types; third-party impls out of scope.",
             "DESIGN.md §3 C17"),
     "C18": ("MIR who-writes census on the atomic + dataflow/dominance on the CAS loop and compute_next exits + call-graph provenance of the frame timestamp",
-            "Static, all-paths: `last` is written only by one compare_exchange whose operands are (value loaded this iteration, compute_next(that value)); next_timestamp returns only in the CAS-success region and returns the published value; compute_next returns the clock reading only in the `reading > last` region, else last+c. These shapes make the textbook CAS argument (pairwise distinct, per-thread increasing, any interleaving, any clock) applicable. The generator is shown to be consulted only as the or_else fallback of the statement's own timestamp.",
+            "Static, all-paths: `last` is written only by one compare_exchange whose operands are (value loaded this iteration, compute_next(that value)); next_timestamp returns only in the CAS-success region and returns the published value; compute_next returns the clock reading only in the `reading > last` region, else last+c (a value returned straight from a call such as max(reading, last) is neither). These shapes make the textbook CAS argument (pairwise distinct, per-thread increasing, any interleaving, any clock) applicable. The generator is shown to be consulted only as the or_else fallback of the statement's own timestamp.",
             "Trusts rustc MIR, compare_exchange semantics; i64 overflow at last+1 and user-provided generators not covered.",
             "DESIGN.md §3 C18"),
     "C19": ("MIR dominance / cut rules on the pre-lowering coroutine of Receiver::recv, Sender::modify and the Drop impls; impl-table and type facts for SPSC",
@@ -74,7 +74,7 @@ CLAIMED = {
             "Trusts rustc MIR and tokio::sync::Notify's enable()/notify_one() permit semantics.",
             "DESIGN.md §3 C19"),
     "C20": ("CFG cut rules on the publication gate of the pool refiller, store-before-use dominance, def-use provenance of the setup event, who-constructs census of the verified-name type",
-            "Static, schedule-independent: every path that pushes a connection into the published set leaves the keyspace test through `no keyspace set` or `keyspace equal`, the `different` outcome is routed through keyspace setup and re-enters the same gate carrying the keyspace it set; the keyspace is recorded before the fan-out snapshots are taken; fan-outs await join_all over all nodes/connections before replying and a USE reply that is not an Err can only be sent by the two tasks that awaited the fan-out; VerifiedKeyspaceName is only built after validation and is the only source of the USE statement text; the response name is checked. Races as such are not enumerated.",
+            "Static, schedule-independent: every path that pushes a connection into the published set leaves the keyspace test through `no keyspace set` or `keyspace equal`, the `different` outcome is routed through keyspace setup and re-enters the same gate carrying the keyspace it set; the keyspace is recorded before the fan-out snapshots are taken; fan-outs await join_all over all nodes/connections before replying and a USE reply that is not an Err can only be sent by the two tasks that awaited the fan-out; a node forwards USE to its pool whenever it has one, connected or not; VerifiedKeyspaceName is only built after validation and is the only source of the USE statement text; the response name is checked. Races as such are not enumerated.",
             "Trusts rustc MIR; role-based anchors on PoolRefiller / ClusterWorker / Connection::use_keyspace.",
             "DESIGN.md §3 C20"),
 }
